@@ -204,7 +204,7 @@ func C19Case(r *Runner, base string, tape *sim.Tape) *Outcome {
 			out.Infra = "fault-free child was killed: " + co.TestOut
 			return out
 		}
-		if ex.Unsure != "" {
+		if ex.Unsure != "" || ex.UnsureFinal != "" {
 			out.stat("scenarios_not_judged_undocumented_shape", 1)
 			break
 		}
@@ -242,7 +242,7 @@ func C19Case(r *Runner, base string, tape *sim.Tape) *Outcome {
 	if len(hashes) > 0 {
 		out.Key = hashes[0]
 	}
-	if inj != nil && ex.Unsure == "" && !ex.Rejected {
+	if inj != nil && ex.Unsure == "" && ex.UnsureFinal == "" && !ex.Rejected {
 		if _, err := fresh(); err != nil {
 			out.Infra = "materialise: " + err.Error()
 			return out
